@@ -378,3 +378,18 @@ Proof.
   - apply settled_quiescent. exact Hset.
   - pose proof (arrivals_mono_run sc s). lia.
 Qed.
+
+(* ---------- C07: every atomic operation of Latch is seq_cst (the correspondence pins the source) ---------- *)
+Definition is_atomic_kind (k : Z) : bool :=
+  (k =? K_LOAD) || (k =? K_STORE) || (k =? K_RMW) || (k =? K_CAS_OK) || (k =? K_CAS_FAIL) || (k =? K_XCHG).
+Lemma all_atomics_seq_cst t c g l g' l' es e :
+  tstep t c g l = Some (g', l', es) -> In e es ->
+  emo e = (if is_atomic_kind (ek e) then MO_SEQ_CST else MO_NA).
+Proof.
+  intros Hs Hin. destruct l as [pr p].
+  step_cases Hs; cbn in Hin;
+    repeat (destruct Hin as [Hin|Hin]; [subst e; reflexivity|]); contradiction.
+Qed.
+(* the only shared datum besides the atomic counter and the condition variable is the mutex itself:
+   there is no non-atomic shared field, so the slow path orders through the mutex and the fast path
+   through the atomic (LatchViews.v) *)
